@@ -143,7 +143,7 @@ def script_pool(rng, tier, P):
     for n in (120, 121, 122, 123, 16504, 16505, 16506, 16507, MAXS - 1, MAXS, MAXS + 1, MAXS + 2):
         S.append(rand_bytes(rng, n))
     if big:
-        for n in (2113663 - 6, 2113664 - 6):
+        for n in (20000, 65530):      # (the 3->4 byte varint boundary 2113664 is exercised by the varint cases: scripts that long overflow the list-based model's stack)
             S.append(rand_bytes(rng, n))
     return S
 
